@@ -122,6 +122,10 @@ class H2Protocol:
                 h2.settings.SettingCodes.ENABLE_CONNECT_PROTOCOL: 1,
             },
         )
+        # The header decoder is created with h2's default limit and
+        # only follows changes to the settings, not these initial
+        # values.
+        self.connection.decoder.max_header_list_size = config.h2_max_header_list_size
 
         self.keep_alive_requests = 0
         self.send = send
